@@ -375,6 +375,55 @@ Section Inv.
       rewrite (IH s1 s' (inv_step s t s1 Hi E) Hpw H). apply (params_frame_step s t s1); auto.
   Qed.
 
+  (* ---------------------------------------------------------------- every execution can be completed *)
+  Definition total (ths : list thread) : nat := fold_right (fun th n => List.length (todo th) + n) 0 ths.
+
+  Lemma total_set_nth (ths : list thread) t th th' :
+    nth_error ths t = Some th ->
+    total (set_nth t th' ths) + List.length (todo th) = total ths + List.length (todo th').
+  Proof.
+    unfold total. revert t. induction ths as [|a ths IH]; intros [|t] H; cbn in *; try discriminate.
+    - inversion H. subst. lia.
+    - specialize (IH t H). lia.
+  Qed.
+
+  Lemma step_total (s : state) t s' : stp s t = Some s' -> total (threads s) = S (total (threads s')).
+  Proof.
+    intro H. destruct (step_inv _ _ _ H) as [th [it [rest [th' [w [Ht [Htd [He ->]]]]]]]]. cbn [threads].
+    pose proof (total_set_nth (threads s) t th th' Ht) as E.
+    rewrite (exec_item_todo _ _ _ _ _ _ _ _ He) in E. rewrite Htd in E. cbn in E. unfold total in *. lia.
+  Qed.
+
+  Lemma total_zero_finished (s : state) : total (threads s) = 0 -> finished s.
+  Proof.
+    intros H t. unfold next_item. destruct (nth_error (threads s) t) as [th|] eqn:E; [|reflexivity].
+    destruct (todo th) as [|it r] eqn:Et; [reflexivity|]. exfalso.
+    unfold total in H. revert t E H. generalize (threads s). induction l as [|a l IH]; intros [|t] E H; cbn in *; try discriminate.
+    - inversion E. subst. rewrite Et in H. cbn in H. lia.
+    - apply (IH t E). lia.
+  Qed.
+
+  Lemma total_pos_unfinished (s : state) : total (threads s) <> 0 -> exists t it, next_item s t = Some it.
+  Proof.
+    unfold next_item, total. generalize (threads s). induction l as [|a l IH]; intro H; cbn in H; [contradiction|].
+    destruct (todo a) as [|it r] eqn:Et.
+    - cbn in H. destruct (IH H) as [t [it Ht]]. exists (S t), it. exact Ht.
+    - exists 0, it. cbn. rewrite Et. reflexivity.
+  Qed.
+
+  Lemma can_complete n : forall (s : state),
+    total (threads s) = n -> inv s -> (forall t, sends_ready t = true) ->
+    exists sched s', rn s sched = Some s' /\ finished s' /\ List.length sched = n.
+  Proof.
+    induction n as [|n IH]; intros s Hn Hi Hsr.
+    - exists [], s. split; [reflexivity|]. split; [apply total_zero_finished; exact Hn|reflexivity].
+    - assert (Hne : total (threads s) <> 0) by lia.
+      destruct (deadlock_free s Hi Hsr (total_pos_unfinished s Hne)) as [t [s1 Hst]].
+      pose proof (step_total s t s1 Hst) as Ht.
+      destruct (IH s1) as [sched [s' [Hr [Hf Hl]]]]; [lia|apply (inv_step s t s1 Hi Hst)|exact Hsr|].
+      exists (t :: sched), s'. cbn. rewrite Hst. split; [exact Hr|]. split; [exact Hf|]. rewrite Hl. reflexivity.
+  Qed.
+
 End Inv.
 
 (* ------------------------------------------------------------------ initial states satisfy the invariant *)
